@@ -695,6 +695,36 @@ def build_cases(tier, seed):
     return pinned, seeded
 
 
+def symlink_leg(acc):
+    """A target reached through a symbolic link (a linked file, or a file below a linked directory)
+    takes the configuration nearest to the path it was GIVEN as, not the one next to the link target.
+    Direct oracle: the bytes of the link target afterwards = the library's output under that
+    configuration."""
+    probe = M.lua_probe(951)
+    near = {"indent_type": "Spaces", "indent_width": 2, "quote_style": "AutoPreferSingle"}
+    far = {"indent_type": "Spaces", "indent_width": 6}
+    want_near = M.ref_format(probe, clilib.cfg(**near))[1].encode()
+    want_default = M.ref_format(probe, clilib.cfg())[1].encode()
+    scenarios = [
+        ("linked-file", {CWD + "/a/stylua.toml": M.toml_text(near), CWD + "/b/stylua.toml": M.toml_text(far), CWD + "/b/real.lua": probe},
+         {CWD + "/a/link.lua": "../b/real.lua"}, ["a/link.lua"], CWD + "/b/real.lua", want_near),
+        ("linked-directory-outside-cwd", {CWD + "/stylua.toml": M.toml_text(near), "up1/up2/shared/mod.lua": probe},
+         {CWD + "/vendor": "../shared"}, ["vendor/mod.lua"], "up1/up2/shared/mod.lua", want_near),
+        ("linked-file-no-config-at-link", {CWD + "/b/stylua.toml": M.toml_text(far), CWD + "/b/real.lua": probe},
+         {CWD + "/a/link.lua": "../b/real.lua"}, ["a/link.lua"], CWD + "/b/real.lua", want_default),
+    ]
+    for tag, files, links, argv, target, want in scenarios:
+        case = {"prop": PROP, "family": "symlink", "tag": tag, "files": files, "links": links, "cwd": CWD, "argv": argv, "env": {}, "stdin": None}
+        o = M.run_case(case, strace=False)
+        if o.harness_error or o.timed_out:
+            acc.incon(f"symlink leg: {o.harness_error or 'timeout'}")
+            continue
+        acc.count("symlink_leg.runs")
+        got = o.after.get(target)
+        if o.rc != 0 or got != want:
+            acc.finding("symlink-config", f"C15:symlink:{tag}", f"[{tag}] argv {argv}: exit {o.rc}; {target} is {None if got is None else got[:120]!r}, expected {want[:120]!r}", case)
+
+
 def run(tier, seed):
     acc = M.Acc(PROP)
     if not clilib.strace_available():
@@ -710,6 +740,7 @@ def run(tier, seed):
             chunk = cases[i:i + B]
             for c, o in zip(chunk, M.run_many(chunk, strace=clilib.strace_available())):
                 judge(c, o, acc)
+        symlink_leg(acc)
     finally:
         M.ref_close()
     return acc.result()
@@ -718,6 +749,9 @@ def run(tier, seed):
 def replay(case):
     acc = M.Acc(PROP)
     try:
+        if case.get("family") == "symlink":
+            symlink_leg(acc)
+            return [f for f in acc.findings if f["case"].get("tag") == case.get("tag")]
         o = M.run_case(case, strace=clilib.strace_available())
         return judge(case, o, acc)
     finally:
